@@ -15,7 +15,7 @@ Undecided: that the tables equal the cardinalities of the input graph for every 
 import ast
 from ..core import walk_own, norm
 from ..report import Ob, Floor
-from ..rules import count, twin, memo
+from ..rules import count, twin, memo, direction, globalstate, plumb, scanner, gens
 from ..abseval import Evaluator, Sym
 from .. import exceptions
 from .c03 import mk_statement, K, P_LOW
@@ -75,6 +75,14 @@ def check(ctx, tier):
     obs += who_may_write(ctx, "D-c")
     obs += count.no_arithmetic_on_figures(ctx, "D-d")
     obs += most_general_table(ctx, "D-e")
+    obs += ctx.attempt(lambda c, cl: direction.explicit_direction(c, cl)[0], ctx, "D-f", default=[])
+    obs += ctx.attempt(lambda c, cl: globalstate.module_level_mutables(c, cl)[0], ctx, "D-g", default=[])
+    o_num, n_num = ctx.attempt(plumb.forwarding, ctx, "D-h", "infer_numeric_types_for_untyped_literals",
+                               lambda prm: prm == "allow_untyped_numbers",
+                               [ctx.flow.param("shexer.shaper:Shaper.__init__", "infer_numeric_types_for_untyped_literals")], default=([], 0))
+    obs += o_num
+    obs += ctx.attempt(lambda c, cl: scanner.quoted_token_contract(c, cl)[0], ctx, "D-i", default=[])
+    obs += ctx.attempt(lambda c, cl: gens.check(c, cl)[0], ctx, "D-j", default=[])
     exceptions.apply(obs)
     floors = [Floor("accumulator increments (+= 1)", counts.get("inc", 0), 9), Floor("absence initialisations", counts.get("init", 0), 20),
               Floor("class appends", counts.get("append", 0), 4), Floor("accumulation loops", n_loops, 8),
